@@ -108,6 +108,12 @@ class StateMachineMatcher:
                                 raise SlashRequired()
                             else:
                                 return rule, values
+                        elif (
+                            not rule.strict_slashes
+                            and rule.methods is not None
+                            and method not in rule.methods
+                        ):
+                            have_match_for.update(rule.methods)
                 return None
 
             part = parts[0]
